@@ -48,7 +48,9 @@ def shards(tier, seed):
         out.append(("conc", c, 0 if tier == "quick" else 1, 8, 8 if tier == "quick" else 60, s, 1 if tier == "quick" else 300))
     line_scns = list(allp)
     for c, s in zip(chunk(line_scns[:96] if tier == "quick" else line_scns, n), split_seeds(seed + 83, n)):
-        out.append(("line", c, 6 if tier == "quick" else 40, s))
+        out.append(("line", c, 6 if tier == "quick" else 40, 0, s))
+    for c, s in zip(chunk(line_scns, n), split_seeds(seed + 84, n)):
+        out.append(("line", c, 0, 6 if tier == "quick" else 80, s))
     try:
         from . import C13
         out += [("fault",) + a for a in C13.fault_shards(tier, seed)]
@@ -63,8 +65,8 @@ def min_required(tier):
 
 def run_shard(kind, *args):
     if kind == "line":
-        scns, n_line, sub_seed = args
-        res = P.run_scenarios(scns, 0, 0, 0, sub_seed, SYMPTOMS, n_line=n_line, skip_dfs=True)
+        scns, n_line, n_sync, sub_seed = args
+        res = P.run_scenarios(scns, 0, 0, 0, sub_seed, SYMPTOMS, n_line=n_line, n_sync=n_sync, skip_dfs=True)
         res.count("hygiene_checks", res.counters.get("schedules", 0))
         return res
     if kind == "conc":
